@@ -185,6 +185,12 @@ def forms(word, bits, hi):
                                                          (Bin('+', Cast(Index(st(), Lit(INT, k)), INT), Cast(Cast(Index(st(), Lit(INT, k)), BYTE), INT)), 'value')], {}
         if -3 <= k <= 3:
             yield f'length of string slice [{k}]', [(Bin('+', Len(S()), Cast(Index(S(), Lit(INT, k)), INT)), 'value')], {}
+    tk = CGen(random.Random(0), bits, True).tick
+    T_ = lambda k: Call(tk, [Lit(INT, k)])       # noqa: E731
+    yield 'length / truthiness / index of literals whose elements have effects', [
+        (Len(ArrLit([T_(1), T_(2), Lit(INT, 7)], INT, True)), 'value'), (Bin('+', Len(ArrLit([T_(3)], INT, True)), Len(Lit(STRING, b'abc'))), 'value'),
+        (Cast(ArrLit([T_(4), Lit(INT, 0)], INT, True), BOOL), 'branch'), (Index(ArrLit([T_(5), T_(6), Lit(INT, 9)], INT, True), Lit(INT, 2)), 'value'),
+        (Len(ArrLit([Bin('>', T_(7), Lit(INT, 0)), Lit(BOOL, False)], BOOL, True)), 'decl')], {}
     rv = Var('rv', INT)
     ra = Var('ra', Arr(INT, False))
     pf = Func('pf', [('p', Arr(INT, True), False), ('x', INT, False)], INT,
@@ -317,7 +323,7 @@ def build(stmts_exprs, consts, tick):
     return Program([Decl('tn', INT, Lit(INT, 0, keep=True))], [Func('@is_you', [], EMPTY, body), tick] + funcs)
 
 
-def check_items(res, items, consts, word, lo, hi):
+def check_items(res, items, consts, word, lo, hi, with_model=False):
     CompilerError, _ = env.compiler_error_types()
     if True:
         prog = build(items, consts, CGen(random.Random(0), 8 * word, True).tick)
@@ -349,6 +355,13 @@ def check_items(res, items, consts, word, lo, hi):
             # accepted although a constant divisor is zero: legitimate only if it is never... the twin must fault there
             runner.count(res, 'accepted_with_constant_zero_divisor')
         if oc.stream == ov.stream and oc.klass == ov.klass:
+            if with_model:
+                # a fold that does not depend on the operands being constant hits both forms alike: ask the reference interpreter too
+                ref, why = diff.model_run(prog, [], word)
+                if ref is not None and diff.compare_streams(ref, oc) is not None:
+                    runner.fail(res, 'M-FOLD', f'constant form and run-time twin agree ({oc.out[:60]!r}) but the source semantics give {ref.out[:60]!r}: {diff.compare_streams(ref, oc)}',
+                                case, expected=ref.brief(), observed=oc.brief())
+                    return
             runner.count(res, 'pairs_identical')
             if sum(count_ops(e) for e, _ in items) >= 2:
                 res['nontrivial'].append(runner.case_id(src_c, word))
@@ -400,7 +413,7 @@ def run_shard(spec):
         return res
     if spec['kind'] == 'forms':
         for tag, items, consts in forms(word, bits, hi):
-            check_items(res, items, consts, word, lo, hi)
+            check_items(res, items, consts, word, lo, hi, with_model=True)
         # constant byte arithmetic that leaves the byte range against the same arithmetic on byte variables (an int literal is
         # coercible to byte, and so is arithmetic over operands that all are: neither form faults, both keep the low byte)
         for tag, c_src, v_src in BYTE_PAIRS:
